@@ -116,3 +116,19 @@ package evidence
 //@   opt assumecallreqs
 //@   ensures [expiredOnlyWhenOldInBlocks] r && height <= result(Pool.State).LastBlockHeight ==> result(Pool.State).LastBlockHeight - height > params.MaxAgeNumBlocks
 //@   ensures [youngInBlocksNeverExpires] height <= result(Pool.State).LastBlockHeight && result(Pool.State).LastBlockHeight - height <= params.MaxAgeNumBlocks && 0 <= params.MaxAgeNumBlocks ==> !r
+
+// Verified aspect of verify: evidence for a height this node has no header for (the height it is still
+// working on, a pruned height) is an error, never a nil dereference -- the reactor hands peer evidence
+// straight to it.
+//@ trusted func (bs BlockStore) LoadBlockMeta(height uint64) (r *types.BlockMeta)
+//@   modifies nothing
+//@   ensures r != nil ==> r.Header != nil
+//@ trusted func (evpool *Pool) State() (r cstate.LatestBlockState)
+//@   requires evpool != nil
+//@   modifies nothing
+//@ aspect func (evpool *Pool) verify(evidence types.Evidence) (err error)
+//@   for C18 C19
+//@   safe
+//@   requires evpool != nil && evpool.blockStore != nil && evpool.stateDB != nil && evidence != nil
+//@   modifies *
+//@   opt assumecallreqs
